@@ -76,6 +76,12 @@ type LabProp struct {
 	// equal the fresh observation of the same mode: the property quantifies over all inputs,
 	// also those given to a parser that has parsed something else before.
 	ReuseModes []proto.Mode
+	// Retry: after a rejected Parse(entry) call Parse(other entry) again WITHOUT Reset (a
+	// program trying another start rule on the same buffer) and require verdict, tokens, trace
+	// and tree of that second call to equal a fresh parse of the other entry. RetryModes lists
+	// the modes; with two modes the second calls are also compared with each other including
+	// the error token (memo vs DisableMemoize).
+	RetryModes []proto.Mode
 	// SkipCase lets a property leave out grammars outside its quantifier.
 	SkipCase func(cs *lab.Case) bool
 	// NeedBase: when the default-options package does not build the property cannot be observed.
@@ -322,6 +328,13 @@ func runLabProp(c *drv.Ctx, lp *LabProp) error {
 				break
 			}
 		}
+		if first == nil && len(c.Violations) == 0 && len(lp.RetryModes) > 0 {
+			if v := retryCheck(c, lp, l, cases, pts); v != nil {
+				c.AddViolation(*v)
+				l.Close()
+				break
+			}
+		}
 		// unobservable packages are reported once per chunk (C08 decides them)
 		unobs := unobservable(l, lp)
 		if first != nil {
@@ -529,4 +542,127 @@ func reuseCheck(c *drv.Ctx, lp *LabProp, l *lab.Lab, cases []*lab.Case, pts []*P
 		}
 	}
 	return nil
+}
+
+// retryCheck: a second Parse without Reset after a rejected one.
+func retryCheck(c *drv.Ctx, lp *LabProp, l *lab.Lab, cases []*lab.Case, pts []*Point) *drv.Violation {
+	v := lp.Variants[0]
+	type ref struct {
+		first, second *Point
+		mode          proto.Mode
+	}
+	var reqs []proto.Req
+	var refs []ref
+	byCaseInput := map[string][]*Point{}
+	for _, pt := range pts {
+		if !pt.Ref.Budget && !pt.Ref.Unspecified && len(pt.Input) <= 200 {
+			k := fmt.Sprint(pt.Case.ID, "/", pt.Input)
+			byCaseInput[k] = append(byCaseInput[k], pt)
+		}
+	}
+	keys := sortedKeys(byCaseInput)
+	for _, k := range keys {
+		group := byCaseInput[k]
+		for i, a := range group {
+			if a.Ref.OK || i%2 == 1 {
+				continue // the first call must be a rejected one; every other such point
+			}
+			b := group[(i+1)%len(group)] // the entry tried next (may be the same rule)
+			name := fmt.Sprintf("g%d%s", a.Case.ID, v.Name)
+			if !l.Runnable(name) {
+				continue
+			}
+			for _, m := range lp.RetryModes {
+				if obsOf(b, v.Name, m) == nil || obsOf(a, v.Name, m) == nil || obsOf(a, v.Name, m).NilRule || obsOf(b, v.Name, m).NilRule {
+					continue
+				}
+				again := b.Entry
+				reqs = append(reqs, proto.Req{Kind: "hist", Pkg: name, Steps: []proto.Step{{Entry: a.Entry, Input: proto.QStr(a.Input), Again: &again}}, Modes: []proto.Mode{m}})
+				refs = append(refs, ref{a, b, m})
+			}
+		}
+	}
+	outs := l.Run(reqs, runtime.NumCPU(), 30*time.Second)
+	seconds := map[string]*proto.Obs{}
+	for i, o := range outs {
+		r := refs[i]
+		if o.Hang || o.Died != "" || o.Resp.Err != "" || len(o.Resp.Obs) == 0 {
+			continue
+		}
+		c.Stats.Eval()
+		c.Stats.Class("second_parse_without_reset_after_a_rejected_one")
+		got := &o.Resp.Obs[0]
+		fresh := obsOf(r.second, v.Name, r.mode)
+		what := ""
+		switch {
+		case got.Panic != "":
+			what = "panic: " + got.Panic
+		case got.OK != fresh.OK:
+			what = fmt.Sprintf("verdict ok=%v, a fresh parser gives ok=%v", got.OK, fresh.OK)
+		case got.OK && !sameObsToks(got.Tokens, fresh.Tokens):
+			what = fmt.Sprintf("tokens [%s], a fresh parser gives [%s]", toksOf(got.Tokens), toksOf(fresh.Tokens))
+		case got.OK && fmt.Sprint(got.Trace) != fmt.Sprint(fresh.Trace):
+			what = fmt.Sprintf("action trace %v, a fresh parser gives %v", got.Trace, fresh.Trace)
+		case got.OK && got.Sprint != fresh.Sprint:
+			what = fmt.Sprintf("syntax tree %q, a fresh parser gives %q", got.Sprint, fresh.Sprint)
+		}
+		key := fmt.Sprint(r.first.Case.ID, "/", r.first.Entry, "/", r.second.Entry, "/", r.first.Input)
+		if what == "" && len(lp.RetryModes) == 2 {
+			if other, ok := seconds[key]; ok {
+				if !got.OK && !sameErrTok(got.ErrTok, other.ErrTok) {
+					what = fmt.Sprintf("error token %v, the same calls with the other memo mode give %v", got.ErrTok, other.ErrTok)
+				}
+			} else {
+				seconds[key] = got
+			}
+		}
+		if what != "" {
+			again := r.second.Entry
+			cs := *r.first.Case
+			cs.Hist = nil
+			rp := &histReplay{Case: &cs, Steps: []proto.Step{{Entry: r.first.Entry, Input: proto.QStr(r.first.Input), Again: &again}}, Mode: r.mode}
+			rp.Grammar = lab.Render(rp.Case, "g", false)
+			desc := fmt.Sprintf("Parse(%s) is rejected on %q; Parse(%s) called next WITHOUT Reset [%s]: %s\n--- grammar ---\n%s", r.first.Case.G.Rules[r.first.Entry].Name, r.first.Input,
+				r.first.Case.G.Rules[again].Name, modeKey(r.mode), what, strings.TrimSpace(r.first.Case.G.String()))
+			return &drv.Violation{Property: lp.ID, Kind: "lab-retry", What: desc, Case: rp}
+		}
+	}
+	return nil
+}
+
+func init() {
+	drv.RegisterReplay("lab-retry", func(c *drv.Ctx, raw json.RawMessage) (string, error) {
+		var r histReplay
+		if err := json.Unmarshal(raw, &r); err != nil {
+			return "", err
+		}
+		r.Case.G.Number()
+		if len(r.Steps) != 1 || r.Steps[0].Again == nil {
+			return "", fmt.Errorf("not a retry case")
+		}
+		cs := *r.Case
+		cs.ID = 0
+		l, err := lab.Build(c, []*lab.Case{&cs}, []lab.Variant{lab.V0}, lab.Options{})
+		if err != nil {
+			return "", err
+		}
+		defer l.Close()
+		st := r.Steps[0]
+		outs := l.Run([]proto.Req{
+			{Kind: "hist", Pkg: "g0v0", Steps: []proto.Step{st}, Modes: []proto.Mode{r.Mode}},
+			{Kind: "run", Pkg: "g0v0", Entry: *st.Again, Input: st.Input, Modes: []proto.Mode{r.Mode}},
+			{Kind: "hist", Pkg: "g0v0", Steps: []proto.Step{st}, Modes: []proto.Mode{{NoMemo: !r.Mode.NoMemo}}},
+		}, 3, 30*time.Second)
+		if len(outs[0].Resp.Obs) == 0 || len(outs[1].Resp.Obs) == 0 {
+			return "", fmt.Errorf("no observation")
+		}
+		got, fresh := &outs[0].Resp.Obs[0], &outs[1].Resp.Obs[0]
+		if got.Panic != "" || got.OK != fresh.OK || (got.OK && (!sameObsToks(got.Tokens, fresh.Tokens) || got.Sprint != fresh.Sprint || fmt.Sprint(got.Trace) != fmt.Sprint(fresh.Trace))) {
+			return fmt.Sprintf("second Parse without Reset: ok=%v tokens [%s]; fresh: ok=%v tokens [%s] %s", got.OK, toksOf(got.Tokens), fresh.OK, toksOf(fresh.Tokens), got.Panic), nil
+		}
+		if len(outs[2].Resp.Obs) > 0 && !got.OK && !sameErrTok(got.ErrTok, outs[2].Resp.Obs[0].ErrTok) {
+			return fmt.Sprintf("second Parse without Reset: error token %v vs %v in the other memo mode", got.ErrTok, outs[2].Resp.Obs[0].ErrTok), nil
+		}
+		return "", nil
+	})
 }
